@@ -17,7 +17,7 @@ REQUIRED = ["contract.GoalRegion.is_reached", "contract.PlanningProblem.goal_rea
             "state.KSState", "state.MBState", "state.CustomState", "pm.vx<0", "value.int", "value.numpy",
             "on-boundary.time", "on-boundary.velocity", "on-boundary.position", "expected.True", "expected.False",
             "multi-goal-state", "requery-after.goal.translate_rotate", "requery-after.lanelet-goal",
-            "requery-after.replace-goal-state-in-place"]
+            "requery-after.replace-goal-state-in-place", "pm.axis-aligned.vx<0,vy==0"]
 ASSUMPTIONS = ["orientation verdicts within 1e-9 of an interval end and circle-boundary positions are not judged",
                "states carry every attribute the goal constrains (otherwise the documented ValueError applies)"]
 SHARDS = {"quick": 4, "thorough": 16}
@@ -167,6 +167,15 @@ def gen_state(G, rng, ctx, goal_states, cls):
         else:
             sp = abs(float(v)) if float(v) != 0 else 1.0
             vx, vy = sp * math.cos(float(th)), sp * math.sin(float(th))
+        if rng.random() < 0.12:
+            # driving exactly along an axis: one velocity component is exactly zero (0, 0.0 or -0.0), the other carries the
+            # whole speed with either sign
+            sp = abs(float(v)) if float(v) != 0 else 1.0
+            zero = rng.choice([0, 0.0, -0.0])
+            vx, vy = rng.choice([(-sp, zero), (sp, zero), (zero, sp), (zero, -sp)])
+            ctx.feature("pm.axis-aligned")
+            if vx < 0 and vy == 0:
+                ctx.feature("pm.axis-aligned.vx<0,vy==0")
         if vx < 0:
             ctx.feature("pm.vx<0")
         return st.PMState(time_step=t, position=pos, velocity=vx, velocity_y=vy)
